@@ -5,11 +5,21 @@ Generator, implementation runner, model request and correspondence are shared wi
 keys, each greedy grant vs the closed-form maximum feasible rate (continuous) / the largest passing
 level under the real network feasibility function (finite), round robin vs a replay on
 `ChargingNetwork.is_feasible`, uncontrolled = max pilot.
+
+"Feasible" means feasible for the NETWORK AS IT IS AT THE MOMENT OF THE CALL.  The oracle therefore never
+takes the constraints from what the Interface handed to the algorithm: it replays the case's network
+history (add / update / remove / rename of constraints between `schedule()` calls, `update_constraint` from the
+post-charging hook of a simulation) on a fresh `ChargingNetwork` of its own (`_Truth`) and judges every call
+against that network.  The model, in contrast, is fed what the Interface handed out (that is the algorithm's
+input), so a stale / wrong view in the Interface shows as an oracle failure, not as a disagreement.
+C08 adds its own stream of NETWORK HISTORIES on one Simulator/Interface (`_gen_history`, `_run_history`).
 """
 from __future__ import annotations
 
 import cmath
+import copy
 import math
+from datetime import datetime
 
 import numpy as np
 
@@ -18,7 +28,7 @@ from core import impl as I
 from props import C07 as B
 
 ID = "C08"
-LEAN_MODULES = ["AcnProofs.C08"]
+LEAN_MODULES = ["AcnProofs.C08", "AcnProofs.Lemmas.CodeTieSorted"]
 DRIVER = "drv_C08"
 REQUIRED_THEOREMS = [
     "Acn.C08.gen_eps", "Acn.C08.sorted_by_key", "Acn.C08.discrete_is_max", "Acn.C08.short_circuit",
@@ -28,33 +38,302 @@ REQUIRED_THEOREMS = [
     "Acn.C08.uncontrolled_spec", "Acn.C08.uncontrolled_mem",
 ]
 BUDGET = {"quick": 700, "thorough": 5000, "search": 1000}
-TRUSTED = B.TRUSTED + ["ChargingNetwork.is_feasible as the feasibility reference of the oracle (C06)"]
+TRUSTED = B.TRUSTED + [
+    "ChargingNetwork.is_feasible as the feasibility reference of the oracle (C06)",
+    "ChargingNetwork.add_constraint / update_constraint / remove_constraint (C12): the oracle replays the case's "
+    "network history on a fresh ChargingNetwork of its own and takes the constraints of each call from there, "
+    "never from the Interface / Simulator under test",
+]
 ASSUMPTIONS = B.ASSUMPTIONS + [
     "optimality of the bisection uses that the feasible values of one coordinate form an interval; this is PROVED "
     "for the phasor check (feasible_set_is_interval via Acn.Feas.algFeasible_interval) and is a hypothesis only for "
     "other predicates",
 ]
+ASSUMPTIONS = ASSUMPTIONS + [
+    "'feasible' is judged against the network as it is at the moment of each schedule() call; stations are fixed for "
+    "the life of a network (register_evse refuses once a constraint exists), constraints may be added, updated "
+    "(same or new name), removed and re-added at any time between calls",
+]
 RULE = B.RULE + ("; C08 counts a case as non-trivial when some grant is strictly inside its own [lb, ub] "
-                 "(a constraint decided it)")
+                 "(a constraint decided it); C08 adds NETWORK HISTORIES (3 of 12 cases, one of them on the exact "
+                 "dyadic stream): 2-4 schedule() calls through ONE Simulator / Interface / algorithm object, with and "
+                 "without estimator, sessions that persist, progress, leave and are replaced, and between the calls one "
+                 "mutation class of the same ChargingNetwork: new limit for the last-added constraint under its name "
+                 "(3/12), for any constraint (moves the row to the end), new coefficients, every constraint in order "
+                 "(same name list, all contents new), remove + re-add under the old name, rename, remove (2/12), add, "
+                 "none; 30 % single-constraint networks; new limits are drawn relative to the full-load aggregate of "
+                 "the row so that most mutations flip whether the row binds (evidence: history_binding:a->b); the "
+                 "thorough tier also enumerates two-call histories exhaustively in a small scope (2 stations x kind "
+                 "combinations x limit grid^2 x every single mutation x occupancy x both algorithms); every call, "
+                 "in every stream, is judged against the network rebuilt from the case's own history (oracle "
+                 "reference), while the model receives the constraint view the Interface handed out")
 
 EPS = 0.01          # eps passed to max_feasible_rate by sorting_algorithm (Gen.Consts.greedyEps)
 ATOL, RTOL = 1e-5, 1e-7
 
 
+def _site_limit_history(algo, finite, sort="fcfs", limits=(70, 40, 88, 24)):
+    """one site limit 'main' over three stations that varies in time under its name (time-varying site limit):
+    every call must be allocated against the limit in force at that call"""
+    evse = {"t": "finite", "rates": B.CC} if finite else {"t": "cont", "min": 0, "max": 32}
+    ids = ["S0", "S1", "S2"]
+    coef = {s: 1.0 for s in ids}
+    evs = [{"session": f"sess{k}", "station": s, "arrival": k, "departure": 100 + k, "est": 100 + k, "requested": 50.0,
+            "delivered": 0.0, "prev_pilot": 0, "rate": 0, "max_override": None} for k, s in enumerate(ids)]
+    calls = []
+    for n, lim in enumerate(limits):
+        ops = [] if n == 0 else [{"op": "update", "name": "main", "coef": coef, "limit": lim}]
+        calls.append({"time": 3 + n, "evs": evs, "order": [0, 1, 2], "ops": ops})
+    return {"mode": "direct", "history": ["limit_last"] * (len(limits) - 1), "period": 5, "algo": algo, "sort": sort,
+            "uninterrupted": False, "estimate": False, "inc": 1, "ramp": {"up": 1, "down": 1, "inc": 1},
+            "stations": [{"id": s, "line": "AB", "evse": evse, "volt": 208, "phase": 0} for s in ids],
+            "constraints": [{"name": "main", "coef": coef, "limit": limits[0]}], "calls": calls}
+
+
 def corpus():
-    return B.corpus()
+    return B.corpus() + [_site_limit_history("greedy", False), _site_limit_history("greedy", True, "lcfs"),
+                         _site_limit_history("rr", False)]
+
+
+# ------------------------------------------------------------------ network histories on ONE Interface
+#
+# A case of this stream is a `mode: "direct"` case whose calls carry "ops": mutations of the SAME
+# ChargingNetwork object between two schedule() calls through the SAME Simulator / Interface / algorithm
+# object.  Op formats (all JSON):
+#   {"op": "update", "name": n, "coef": {...}, "limit": x [, "new_name": m]}   ChargingNetwork.update_constraint
+#   {"op": "remove", "name": n}                                                 ChargingNetwork.remove_constraint
+#   {"op": "add",    "name": n, "coef": {...}, "limit": x}                      ChargingNetwork.add_constraint
+# `update_constraint` removes the row and appends it again, i.e. updating anything but the last constraint
+# reorders the rows; the generator tracks the resulting order so that it can aim at "same names, same order,
+# different contents" (limit-only update of the last constraint, update of every constraint in order,
+# remove + re-add under the old name) as well as at changed name lists (remove, add, rename).
+
+HISTORY_KINDS = ["limit_last", "limit_last", "limit_last", "limit_any", "update", "cycle", "readd", "rename",
+                 "remove", "remove", "add", "none"]
+
+
+def _row_full(coef, load, phase):
+    z = sum(v * load.get(s, 0.0) * cmath.exp(1j * phase[s]) for s, v in coef.items())
+    return abs(z)
+
+
+def _new_limit(rng, coef, load, phase, old, exact):
+    """a limit for this row that (mostly) changes whether the row binds: relative to the full-load aggregate"""
+    full = _row_full(coef, load, phase)
+    r = rng.random()
+    if full < 1e-6 or r < 0.2:
+        lim = old * rng.choice([0.3, 0.5, 0.8, 1.5, 3.0])
+    elif r < 0.65:
+        lim = full * rng.uniform(0.2, 0.9)         # binds
+    else:
+        lim = full * rng.uniform(1.1, 2.5)         # does not bind
+    lim = max(lim, 0.5)
+    if exact:
+        lim = float(max(1, round(lim))) + rng.choice([0.0, 0.0, 0.5, 0.25])
+    if lim == old:
+        lim = old + (1.0 if exact else 0.37)
+    return lim
+
+
+def _gen_ops(rng, cons, stations, load, exact, tag):
+    """(ops, constraint list afterwards, kind).  `cons` is the network's constraint list IN ITS CURRENT ORDER."""
+    cons = [dict(c, coef=dict(c["coef"])) for c in cons]
+    ids = [s["id"] for s in stations]
+    phase = {s["id"]: math.radians(s["phase"]) for s in stations}
+    kind = rng.choice(HISTORY_KINDS)
+    if not cons and kind not in ("add", "none"):
+        kind = "add"
+    ops = []
+
+    def upd(c, coef=None, new_name=None):
+        coef = dict(c["coef"]) if coef is None else coef
+        lim = _new_limit(rng, coef, load, phase, c["limit"], exact)
+        op = {"op": "update", "name": c["name"], "coef": coef, "limit": lim}
+        if new_name is not None:
+            op["new_name"] = new_name
+        ops.append(op)
+        cons.remove(c)
+        cons.append({"name": new_name or c["name"], "coef": coef, "limit": lim})
+
+    if kind == "limit_last":
+        upd(cons[-1])
+    elif kind == "limit_any":
+        upd(rng.choice(cons))
+    elif kind == "update":
+        c = rng.choice(cons)
+        coef = dict(c["coef"])
+        r = rng.random()
+        if r < 0.4 and len(coef) > 1:
+            k = rng.choice(sorted(coef))
+            coef[k] = coef[k] * rng.choice([2.0, -1.0, 0.5])
+        elif r < 0.7 and len(coef) > 1:
+            del coef[rng.choice(sorted(coef))]
+        else:
+            free = [s for s in ids if s not in coef]
+            if free:
+                coef[rng.choice(free)] = rng.choice([1.0, -1.0, 0.5])
+        upd(c, coef)
+    elif kind == "cycle":
+        for c in list(cons):            # every constraint once, in order: the name list ends up unchanged
+            upd(c)
+    elif kind == "rename":
+        c = rng.choice(cons)
+        upd(c, new_name=f"{c['name']}.{tag}")
+    elif kind == "readd":
+        c = rng.choice(cons)
+        lim = _new_limit(rng, c["coef"], load, phase, c["limit"], exact)
+        ops.append({"op": "remove", "name": c["name"]})
+        ops.append({"op": "add", "name": c["name"], "coef": dict(c["coef"]), "limit": lim})
+        cons.remove(c)
+        cons.append({"name": c["name"], "coef": dict(c["coef"]), "limit": lim})
+    elif kind == "remove":
+        for c in rng.sample(cons, rng.choice([1, 1, min(2, len(cons))])):
+            ops.append({"op": "remove", "name": c["name"]})
+            cons.remove(c)
+    elif kind == "add":
+        sub = rng.sample(ids, rng.randint(1, len(ids)))
+        coef = {s: 1.0 for s in sub}
+        if rng.random() < 0.3 and len(sub) > 1:
+            coef[sub[0]] = -1.0
+        lim = _new_limit(rng, coef, load, phase, rng.uniform(5, 60), exact)
+        c = {"name": f"n{tag}", "coef": coef, "limit": lim}
+        ops.append(dict(c, op="add", coef=dict(coef)))
+        cons.append(c)
+    return ops, cons, kind
+
+
+def _gen_history(rng, exact=False):
+    """2-4 schedule() calls through one Simulator / Interface / algorithm object (with and without estimator)
+    with the network mutated in between; sessions persist, progress, leave and are replaced."""
+    stations = B._gen_stations(rng, exact, 2, 7)
+    period = rng.choice([5, 5, 1, 15]) if not exact else rng.choice([4, 8])
+    cfg = B._gen_algo(rng, exact)
+    t = rng.choice([0, 1, 2, 3, rng.randint(2, 30)])
+    ncalls = rng.choice([2, 2, 3, 3, 4])
+    evs = []
+    for j, st in enumerate(stations):
+        if rng.random() < 0.8:
+            ev = B._gen_ev_direct(rng, st, j, t, period, exact, [])
+            if rng.random() < 0.75:         # stays for the whole history
+                ev["departure"] = max(ev["departure"], t + ncalls + rng.randint(0, 3))
+                ev["est"] = max(ev["est"], ev["arrival"] + 1)
+            if rng.random() < 0.6:          # plenty of demand left: the network, not the session, is the limit
+                ev["requested"] = round(rng.uniform(20, 60), 3)
+                ev["delivered"] = round(ev["requested"] * rng.uniform(0.0, 0.3), 3)
+            evs.append(ev)
+    for ev in evs:
+        if rng.random() < 0.2:
+            o = rng.choice(evs)
+            ev["arrival"] = o["arrival"]
+            if o["est"] > ev["arrival"]:
+                ev["est"] = o["est"]
+    by_id = {s["id"]: s for s in stations}
+    load = {ev["station"]: B._session_load(by_id[ev["station"]], ev, period) for ev in evs}
+    for st in stations:                      # a station that is empty now may be taken later
+        load.setdefault(st["id"], B._max_of(st["evse"]) * 0.5)
+    cons0 = B._gen_constraints(rng, stations, load, exact)
+    if cons0 and rng.random() < 0.3:
+        cons0 = cons0[:1]                    # single-constraint network (one site limit that varies in time)
+    cons = cons0
+    calls = []
+    kinds = []
+    cur = evs
+    for c in range(ncalls):
+        order = list(range(len(cur)))
+        rng.shuffle(order)
+        call = {"time": t + c, "evs": copy.deepcopy(cur), "order": order, "ops": []}
+        if c > 0:
+            call["ops"], cons, kind = _gen_ops(rng, cons, stations, load, exact, c)
+            kinds.append(kind)
+        calls.append(call)
+        nxt = []
+        for ev in cur:
+            if ev["departure"] <= t + c + 1 or rng.random() < 0.08:
+                continue
+            ev = dict(ev)
+            st = by_id[ev["station"]]
+            amp_to_kwh = st["volt"] / 1000.0 * period / 60.0
+            rem = ev["requested"] - ev["delivered"]
+            pilot = rng.choice([8, 16, B._max_of(st["evse"]), round(rng.uniform(0, 32), 2)])
+            rate = rng.choice([pilot, pilot, max(0, pilot - 1.5), pilot * 0.3])
+            ev["delivered"] = ev["delivered"] + min(rem * rng.choice([0.1, 0.5, 0.9]), rate * amp_to_kwh)
+            ev["prev_pilot"] = pilot
+            ev["rate"] = rate
+            nxt.append(ev)
+        taken = {ev["station"] for ev in nxt}
+        for j, st in enumerate(stations):    # newcomers: on a free station or on one that was just vacated
+            if st["id"] not in taken and rng.random() < 0.25:
+                ev = B._gen_ev_direct(rng, st, 100 * (c + 1) + j, t + c + 1, period, exact, [])
+                ev["departure"] = max(ev["departure"], t + ncalls + 1)
+                nxt.append(ev)
+        cur = nxt
+    case = {"mode": "direct", "history": kinds, "period": period, "stations": stations, "constraints": cons0,
+            "calls": calls,
+            "ramp": {"up": rng.choice([1, 1, 0.5, 2]), "down": rng.choice([1, 1, 0.5, 2]), "inc": rng.choice([1, 1, 0.5, 3])}}
+    case.update(cfg)
+    return case
+
+
+def enumerate_histories():
+    """Exhaustive small scope of two-call histories (thorough tier): 2 stations of every kind combination, a
+    mixed-sign row c0 and a pod row c1 on a limit grid, every occupancy, both algorithms; between the two
+    identical calls ONE network mutation of every class (limit of the last / of the first constraint to every
+    other grid value, every constraint in order, remove either, remove + re-add, rename, add a third row)."""
+    import itertools
+    kinds = [{"t": "cont", "min": 0, "max": 16}, {"t": "finite", "rates": [0, 8, 16]}]
+    lines = ["AB", "CA"]
+    grid = [6, 12.5, 20, 40]
+    t, period, volt = 5, 5, 208
+    mixed = {"st-0": 1.0, "st-1": -1.0}
+    pod = {"st-0": 1.0, "st-1": 1.0}
+    out = []
+    for ks in itertools.product(range(2), repeat=2):
+        stations = [{"id": f"st-{j}", "line": lines[j], "evse": kinds[ks[j]], "volt": volt,
+                     "phase": B.LINE_PHASE[lines[j]]} for j in range(2)]
+        for l1, l2 in itertools.product(grid, repeat=2):
+            cons = [{"name": "c0", "coef": mixed, "limit": l1}, {"name": "c1", "coef": pod, "limit": l2}]
+            muts = []
+            for g in grid:
+                if g != l2:
+                    muts.append([{"op": "update", "name": "c1", "coef": pod, "limit": g}])
+                    muts.append([{"op": "remove", "name": "c1"}, {"op": "add", "name": "c1", "coef": pod, "limit": g}])
+                if g != l1:
+                    muts.append([{"op": "update", "name": "c0", "coef": mixed, "limit": g}])
+            g1, g2 = grid[(grid.index(l1) + 2) % 4], grid[(grid.index(l2) + 2) % 4]
+            muts.append([{"op": "update", "name": "c0", "coef": mixed, "limit": g1},
+                         {"op": "update", "name": "c1", "coef": pod, "limit": g2}])
+            muts.append([{"op": "remove", "name": "c0"}])
+            muts.append([{"op": "remove", "name": "c1"}])
+            muts.append([{"op": "update", "name": "c1", "coef": pod, "limit": g2, "new_name": "c1b"}])
+            muts.append([{"op": "add", "name": "c2", "coef": {"st-0": 1.0}, "limit": 6}])
+            for occ in ((1, 1), (1, 0), (0, 1)):
+                evs = [{"session": f"sess-{j}", "station": f"st-{j}", "arrival": (2 * j + 1) % 4, "departure": t + 4 + j,
+                        "est": t + 3 - j, "requested": 10.0, "delivered": 2.0, "prev_pilot": 0, "rate": 0,
+                        "max_override": None} for j in range(2) if occ[j]]
+                order = list(range(len(evs)))[::-1]
+                for mut, algo in itertools.product(muts, ("greedy", "rr")):
+                    out.append({"mode": "direct", "history": ["enumerated"], "period": period, "stations": stations,
+                                "constraints": cons,
+                                "calls": [{"time": t, "evs": evs, "order": order, "ops": []},
+                                          {"time": t + 1, "evs": evs, "order": order, "ops": mut}],
+                                "ramp": {"up": 1, "down": 1, "inc": 1}, "algo": algo, "sort": "fcfs",
+                                "uninterrupted": False, "estimate": False, "inc": 1, "enumerated": True})
+    return out
 
 
 def generate(rng, n, tier):
     out = []
     if tier == "thorough":
         out.extend(B.enumerate_small())
+        out.extend(enumerate_histories())
     for i in range(n):
         r = i % 12
         if r == 11:
             c = B._gen_sim(rng)
         elif r in (4, 8):
             c = B._gen_direct(rng, exact=True)
+        elif r in (2, 6, 9):
+            c = _gen_history(rng, exact=(r == 6))
         else:
             c = B._gen_direct(rng)
         if c["algo"] == "uncontrolled" and rng.random() < 0.5:
@@ -63,7 +342,76 @@ def generate(rng, n, tier):
     return out
 
 
-run_impl = B.run_impl
+# ------------------------------------------------------------------ implementation: histories
+
+def _apply_ops(net, ops):
+    Current = B._imports()[1]
+    for o in ops:
+        if o["op"] == "update":
+            net.update_constraint(o["name"], Current(dict(o["coef"])), o["limit"], new_name=o.get("new_name"))
+        elif o["op"] == "remove":
+            net.remove_constraint(o["name"])
+        elif o["op"] == "add":
+            net.add_constraint(Current(dict(o["coef"])), o["limit"], name=o["name"])
+        else:
+            raise ValueError(f"unknown network op {o}")
+
+
+def _run_history(case):
+    """`C07._run_direct` with network mutations between the calls: ONE network, ONE Simulator, ONE Interface and
+    ONE algorithm object for the whole history; every schedule() goes through the recorder of C07."""
+    (_, _, Simulator, EventQueue, _, _, _, _, _) = B._imports()
+    from acnportal.acnsim.models import EV, Battery
+    net = B.build_network(case)
+    rec = B._Recorder(case, net)
+    rec.dynamic = True          # every call records the constraint view the Interface hands out (model input)
+    algo = rec.make()
+    sim = Simulator(net, algo, EventQueue(), datetime(2020, 1, 1), period=case["period"], verbose=False)
+    iface = algo.interface
+    obs = {"infra": B.infra_obs(iface), "calls": rec.calls, "mode": "direct"}
+    ids = net.station_ids
+    for call in case["calls"]:
+        t = call["time"]
+        if call.get("update"):
+            B.apply_updates(net, call["update"])
+        _apply_ops(net, call.get("ops") or [])
+        for evse in net._EVSEs.values():
+            if evse.ev is not None:
+                evse.unplug()
+        sim._iteration = t
+        sim.pilot_signals = np.zeros((len(ids), t + 2))
+        sim.charging_rates = np.zeros((len(ids), t + 2))
+        for e in call["evs"]:
+            ev = EV(e["arrival"], e["departure"], e["requested"], e["station"], e["session"],
+                    Battery(100, 0, 100), estimated_departure=e["est"])
+            ev._energy_delivered = e["delivered"]
+            ev._current_charging_rate = e["rate"]
+            net.plugin(ev)
+            if t - 1 >= 0:
+                sim.pilot_signals[ids.index(e["station"]), t - 1] = e["prev_pilot"]
+        by_id = {s.session_id: s for s in iface.active_sessions()}
+        ordered = []
+        for k in call["order"]:
+            sid = call["evs"][k]["session"]
+            if sid in by_id:
+                s = by_id[sid]
+                mo = call["evs"][k].get("max_override")
+                if mo is not None:
+                    s.max_rates = np.array([float(mo)] * s.remaining_time)
+                ordered.append(s)
+        try:
+            algo.schedule(ordered)
+        except B._Captured:
+            pass
+    return obs
+
+
+def run_impl(case):
+    if case["mode"] == "direct" and any("ops" in c for c in case["calls"]):
+        return _run_history(case)
+    return B.run_impl(case)
+
+
 model_request = B.model_request
 compare = B.compare
 nontrivial = B.nontrivial
@@ -116,21 +464,71 @@ def _closed_form_max(inf, x, i):
     return U
 
 
+class _Truth:
+    """The real ChargingNetwork at the moment of each recorded call, rebuilt FROM THE CASE ALONE on a fresh
+    ChargingNetwork (never from the Interface / Simulator under test): the constraints the case starts with and
+    then the case's own mutations in the order the run applies them -- direct mode: the `update` / `ops` of call k
+    right before call k; simulation: `updates` with t == p run in the post-charging hook of period p, i.e. they
+    are in force for every call at time > p."""
+
+    def __init__(self, case):
+        base = {k: v for k, v in case.items() if k != "updates"}
+        self.case = case
+        self.net = B.build_network(base)
+        self.pending = sorted(case.get("updates") or [], key=lambda u: u["t"]) if case["mode"] == "sim" else []
+        self.done = 0
+        self.version = 0
+
+    def at(self, k, c):
+        """advance to recorded call k (calls must be visited in order, failed ones included)"""
+        if self.case["mode"] == "sim":
+            while self.pending and self.pending[0]["t"] < c["time"]:
+                B.apply_updates(self.net, [self.pending.pop(0)])
+                self.version += 1
+        else:
+            while self.done <= k and self.done < len(self.case["calls"]):
+                cc = self.case["calls"][self.done]
+                if cc.get("update"):
+                    B.apply_updates(self.net, cc["update"])
+                    self.version += 1
+                if cc.get("ops"):
+                    _apply_ops(self.net, cc["ops"])
+                    self.version += 1
+                self.done += 1
+        return self.net
+
+    def matrix(self):
+        M = self.net.constraint_matrix
+        return ([] if M is None else [[float(x) for x in row] for row in M],
+                [float(x) for x in self.net.magnitudes])
+
+
+def _same_view(c, M, lims):
+    """does the constraint view the Interface handed out at this call equal the network's? (evidence only)"""
+    if "net" not in c:
+        return None
+    a = sorted((tuple(r), l) for r, l in zip(c["net"]["M"], c["net"]["lims"]))
+    b = sorted((tuple(r), l) for r, l in zip(M, lims))
+    return a == b
+
+
 def oracle(case, obs):
     fails = []
     inf = obs["infra"]
     ids = inf["ids"]
     idx = {s: i for i, s in enumerate(ids)}
     period = case["period"]
-    net = None
     inf0 = inf
+    truth = _Truth(case)
+    if case["mode"] == "direct" and len(obs["calls"]) != len(case["calls"]):
+        return [{"kind": "history_not_recorded", "detail": f"{len(case['calls'])} calls made, {len(obs['calls'])} recorded"}]
     for k, c in enumerate(obs["calls"]):
+        net = truth.at(k, c)        # judge against the network of THIS call, as the case's history made it
         if c["err"] is not None:
             continue
-        inf = inf0
-        if "net" in c:      # the network was changed under the same names: judge against the network of THIS call
-            inf = dict(inf0, M=c["net"]["M"], lims=c["net"]["lims"])
-            net = None
+        M, lims = truth.matrix()
+        inf = dict(inf0, M=M, lims=lims)
+        c["_same_view"] = _same_view(c, M, lims)
         if case["algo"] == "uncontrolled":
             want = {s["station"]: I.num(inf["maxp"][idx[s["station"]]]) for s in c["sessions"]}
             got = {s: v[0] for s, v in c["schedule"].items()}
@@ -161,8 +559,6 @@ def oracle(case, obs):
                 fails.append({"kind": "sort_not_stable", "detail": f"call {k}: {case['sort']} order={order} keys={keys}"})
                 break
         # ---- allocation
-        if net is None:
-            net = B.network_from_matrix(case, inf) if "net" in c else B.build_network(case)
         n = len(ids)
 
         def feasible(x):
@@ -267,4 +663,14 @@ def features(case, obs):
             out.append("rr_stop:" + r)
         if c.get("order") is not None and len(c["order"]) >= 2:
             out.append("sorted_n>=2")
+        if c.get("_same_view") is not None:
+            out.append("interface_constraint_view==network:%s" % c["_same_view"])
+    for kind in case.get("history") or []:
+        out.append("history:" + kind)
+    if case.get("history") is not None:
+        out.append("mode:direct:history")
+        out.append("history_calls:%d" % len(case["calls"]))
+        binds = [B._binding(case, obs, c) for c in obs["calls"]]
+        for a, b in zip(binds, binds[1:]):
+            out.append("history_binding:%s->%s" % (a, b))
     return out
